@@ -1,4 +1,82 @@
-use simcore::Plan;
+//! Generator for the `disk` family: which values are stored, in which format. The fault positions are
+//! not sampled: the executor enumerates them completely for each stored record.
+
+use crate::dict;
+use refmodel::ed;
+use simcore::{bump, Counters, Plan, Prng, Step, B};
+
+pub fn value_for(rng: &mut Prng, ty: u8, c: &mut Counters) -> Vec<u8> {
+    let edge = rng.chance(1, 3);
+    if edge {
+        bump(c, "gen:edge_value");
+    }
+    match ty {
+        0 => {
+            if edge {
+                let l1 = refmodel::sc::l().sub_borrow(&refmodel::U256::ONE).0.to_le_bytes();
+                let cands: [[u8; 32]; 4] = [[0u8; 32], refmodel::Sc::ONE.to_bytes(), l1, refmodel::Sc::from_u64(255).to_bytes()];
+                cands[rng.below(4) as usize].to_vec()
+            } else {
+                refmodel::Sc::from_bytes_mod_order(&rng.arr32()).to_bytes().to_vec()
+            }
+        }
+        1 | 7 => {
+            if edge {
+                let t = ed::torsion();
+                match rng.below(3) {
+                    0 => t[rng.below(8) as usize].encode().to_vec(),
+                    1 => ed::basepoint().encode().to_vec(),
+                    _ => dict::random_point(rng).add(&t[1 + rng.below(7) as usize]).encode().to_vec(),
+                }
+            } else {
+                dict::random_point(rng).encode().to_vec()
+            }
+        }
+        3 => {
+            if edge {
+                refmodel::ristretto::encode(&ed::Pt::IDENTITY).to_vec()
+            } else {
+                refmodel::ristretto::encode(&dict::random_point(rng).dbl()).to_vec()
+            }
+        }
+        8 => {
+            if edge {
+                vec![[0u8, 0xff, 0x7f][rng.below(3) as usize]; 64]
+            } else {
+                rng.bytes(64)
+            }
+        }
+        _ => {
+            if edge {
+                match rng.below(4) {
+                    0 => vec![0u8; 32],
+                    1 => vec![0xff; 32],
+                    2 => dict::p_plus(rng.below(19)).to_vec(),
+                    _ => {
+                        // decimal-width edges: elements 9/10, 99/100, 255
+                        let pool = [0u8, 9, 10, 99, 100, 199, 200, 255];
+                        (0..32).map(|_| pool[rng.below(8) as usize]).collect()
+                    }
+                }
+            } else {
+                rng.bytes(32)
+            }
+        }
+    }
+}
+
 pub fn generate(seed: u64, run: u64, focus: &str, _thorough: bool) -> Plan {
-    Plan { family: "disk".into(), focus: focus.into(), seed, run, faults: Default::default(), ticks: 0, steps: vec![] }
+    let fam = 0x64_69_73_6b ^ simcore::fnv1a(focus.as_bytes());
+    let mut rng = Prng::new(simcore::run_seed(seed, fam, run));
+    let mut c = Counters::new();
+    let mut steps = Vec::new();
+    // one stored record per run, type cycling with the run index so every type is covered evenly
+    let ty = ((run + rng.below(2) * 0) % crate::disk::NTYPES as u64) as u8;
+    let fmt = rng.below(2) as u8;
+    let v = value_for(&mut rng, ty, &mut c);
+    bump(&mut c, &format!("gen:type_{}", crate::disk::ty_name(ty)));
+    bump(&mut c, if fmt == 0 { "gen:format_bincode" } else { "gen:format_json" });
+    bump(&mut c, "runs:fault_injecting");
+    steps.push(Step::Disk { ty, v: B(v), fmt });
+    Plan { family: "disk".into(), focus: focus.into(), seed, run, faults: c, ticks: 0, steps }
 }
